@@ -191,7 +191,8 @@ def run(ctx, replay=None):
             rnd = lines[s:e]
             off = lines[min(k, len(lines) - 1)]
             nth = sum(1 for x in rnd if x["ev"] == "inv")
-            head = "repeated Take/Poll calls after the producer stopped did not retrieve every accepted item" if off.get("ev") == "stuck" else \
+            head = "a Poll / Take / Offer call never returned" if off.get("ev") == "stuck" and off.get("op") in ("poll", "call") else \
+                "repeated Take/Poll calls after the producer stopped did not retrieve every accepted item" if off.get("ev") == "stuck" else \
                 "history not explainable by the two-part FIFO at %s %s r=%s" % (off.get("ev"), off.get("op"), off.get("r"))
             ctx.report("%s [C=%d B=%d threads=%d]" % (head, rnd[0]["c"], rnd[0]["b"], len({x["thr"] for x in rnd}) - 1),
                        "round (C=%d, B=%d): no linearisation explains the recorded history up to line %d: %s ... offending line %s" % (
